@@ -86,50 +86,50 @@ Definition sgr_plain (n : Z) (a : TextAttribute) : option TextAttribute :=
   else if in_range 100 107 n then Some (set_bg a (8 + tget COLOR_OFFSETS (zn (n - 100)))%N)
   else None.
 
-(* parse_extended_colors on the parameters AFTER the 38 / 48: Some (colour index, palette, rest) or None (Err) *)
-Definition parse_extended_colors (rest : list Z) (pal : palette) : option (N * palette * list Z) :=
-  match rest with
-  | 5 :: c :: rest' =>
-    if in_range 0 255 c then
-      let '(i, pal') := pal_insert pal (pal_rgb XTERM_256_PALETTE (zn c)) in Some (i, pal', rest')
-    else None
-  | 2 :: r :: g :: b :: rest' =>
-    if in_range 0 255 r && in_range 0 255 g && in_range 0 255 b then
-      let '(i, pal') := pal_insert pal (zn r, zn g, zn b) in Some (i, pal', rest')
-    else None
-  | _ => None
-  end.
+(* parse_extended_colors, inlined so that the loop is structurally recursive: `ext_kind` is what the colour is
+   stored into (38 foreground, 48 background); an Err (None of sgr_plain, malformed 38/48) stops the loop and
+   keeps what was done so far, exactly as the `?` / `return Err` of the code *)
+Definition store_ext (fg : bool) (a : TextAttribute) (i : N) : TextAttribute := if fg then set_fg a i else set_bg a i.
 
-(* the `while i < parsed_numbers.len()` loop; an Err stops it and keeps what was done so far *)
-Fixpoint sgr_loop (fuel : nat) (l : list Z) (a : TextAttribute) (pal : palette) : TextAttribute * palette :=
-  match fuel with
-  | O => (a, pal)
-  | S f =>
-    match l with
-    | [] => (a, pal)
-    | n :: rest =>
-      if n =? 38 then
-        match parse_extended_colors rest pal with
-        | Some (i, pal', rest') => sgr_loop f rest' (set_fg a i) pal'
-        | None => (a, pal)
-        end
-      else if n =? 48 then
-        match parse_extended_colors rest pal with
-        | Some (i, pal', rest') => sgr_loop f rest' (set_bg a i) pal'
-        | None => (a, pal)
-        end
-      else
-        match sgr_plain n a with
-        | Some a' => sgr_loop f rest a' pal
-        | None => (a, pal)
-        end
-    end
+Fixpoint sgr_loop (l : list Z) (a : TextAttribute) (pal : palette) : TextAttribute * palette :=
+  match l with
+  | [] => (a, pal)
+  | n :: rest =>
+    if (n =? 38) || (n =? 48) then
+      match rest with
+      | [] => (a, pal)                                            (* *i + 1 >= len *)
+      | sel :: rest1 =>
+        if sel =? 5 then
+          match rest1 with
+          | c :: rest2 =>                                          (* *i + 3 <= len *)
+            if in_range 0 255 c then
+              let ip := pal_insert pal (pal_rgb XTERM_256_PALETTE (zn c)) in
+              sgr_loop rest2 (store_ext (n =? 38) a (fst ip)) (snd ip)
+            else (a, pal)
+          | [] => (a, pal)
+          end
+        else if sel =? 2 then
+          match rest1 with
+          | r :: g :: b :: rest2 =>                                (* *i + 5 <= len *)
+            if in_range 0 255 r && in_range 0 255 g && in_range 0 255 b then
+              let ip := pal_insert pal (zn r, zn g, zn b) in
+              sgr_loop rest2 (store_ext (n =? 38) a (fst ip)) (snd ip)
+            else (a, pal)
+          | _ => (a, pal)
+          end
+        else (a, pal)
+      end
+    else
+      match sgr_plain n a with
+      | Some a' => sgr_loop rest a' pal
+      | None => (a, pal)
+      end
   end.
 
 Definition select_graphic_rendition (l : list Z) (a : TextAttribute) (pal : palette) : TextAttribute * palette :=
   match l with
   | [] => (reset_color_attribute a, pal)
-  | _ => sgr_loop (length l) l a pal
+  | _ => sgr_loop l a pal
   end.
 
 (* CSI k ; r ; g ; b t : the colour is inserted before the selector is looked at *)
